@@ -94,6 +94,20 @@ func build(race bool, out string) error {
 	if race {
 		args = append(args, "-race")
 	}
+	if alt := os.Getenv("VERIF_REPO"); alt != "" {
+		// Development aid only (never set by a registered command): judge a scratch
+		// worktree of dgrr/http2 instead of /repo, so that seeded mutations can be
+		// tried in parallel without touching /repo. No evidence file is written.
+		mod, err := os.ReadFile(filepath.Join(root, "h2v", "go.mod"))
+		if err != nil {
+			return err
+		}
+		mf := filepath.Join(filepath.Dir(out), "go.mod")
+		os.WriteFile(mf, []byte(strings.Replace(string(mod), "=> /repo", "=> "+alt, 1)), 0o644)
+		sum, _ := os.ReadFile(filepath.Join(root, "h2v", "go.sum"))
+		os.WriteFile(filepath.Join(filepath.Dir(out), "go.sum"), sum, 0o644)
+		args = append(args, "-modfile="+mf)
+	}
 	args = append(args, "./workers")
 	cmd := exec.Command(filepath.Join(root, "bin", "vgo"), args...)
 	cmd.Dir = filepath.Join(root, "h2v")
@@ -372,7 +386,7 @@ func run(id, tier, only string) int {
 		"property_id": id, "tier": tier, "seed": seed, "level": "exploration",
 		"coverage": cov, "assumptions": assumptions, "wall_s": time.Since(start).Seconds(), "violations": violN,
 	}
-	if only == "" {
+	if only == "" && os.Getenv("VERIF_REPO") == "" {
 		b, _ := json.MarshalIndent(ev, "", " ")
 		os.MkdirAll(filepath.Join(root, "evidence"), 0o755)
 		os.WriteFile(filepath.Join(root, "evidence", id+".json"), b, 0o644)
